@@ -74,8 +74,12 @@ def block_seeded():
         if len(summ) > 260:
             summ = summ[:257] + '…'
         det = 'yes' if m.get('detected_by_check') else 'NO'
+        if m.get('obsolete'):
+            det = 'obsolete'
         note = m.get('note', '')
         what = '; '.join(rules[:2]) if rules else (note[:200] if note else '')
+        if m.get('obsolete'):
+            what = m['obsolete'][:220]
         rows.append(f"| {sid} | {', '.join(m.get('files') or [])} | {summ} | {det} | {what} |")
     n = len(rows)
     nd = sum(1 for r in rows if '| yes |' in r)
